@@ -409,6 +409,7 @@ def register(reg):
         "mx_nonneg": "max_id_bucket >= 0",
         "nonpos": "delta_dist <= 0",
         "term01": "terminated == 0 or terminated == 1",
+        "delta": "delta_dist == SC(r, 0, cost_matrix_1d, n, n) - SC(r0, 0, cost_matrix_1d, n, n)",
     }
     reg.contract(
         F + "_improve_one_ranking", props=["C08", "C09", "C04", "C03"],
@@ -416,9 +417,11 @@ def register(reg):
         ghost=dict(maxb0=Int, wit0=Arr(Int)),
         requires={"len": "len(r) == n and n >= 1", "len_c": "len(cost_matrix_1d) == 3 * n * n",
                   "range": "forall(lambda j: 0 <= r[j] <= maxb0, 0, n)",
-                  "wit": "forall(lambda b: 0 <= wit0[b] < n and r[wit0[b]] == b, 0, maxb0 + 1)"},
+                  "wit": "forall(lambda b: 0 <= wit0[b] < n and r[wit0[b]] == b, 0, maxb0 + 1)",
+                  # the flattened table is mirror consistent (C02: cells (i,j,before) == (j,i,after), tied cells equal)
+                  "mirror": "forall(lambda t, a: MIRP(cost_matrix_1d, n, t, a), 0, n, 0, n)"},
         modifies=["r"],
-        ghost_vars={"wit": "wit0"},
+        ghost_vars={"wit": "wit0", "r0": "r"},
         ensures={
             "range": "forall(lambda j: 0 <= r[j] <= n - 1, 0, n)",
             "dense": "forall(lambda b: implies(exists(lambda j: r[j] >= b, 0, n), exists(lambda j: r[j] == b, 0, n)), 0, n)",
@@ -438,8 +441,7 @@ def register(reg):
                                "DJS(r, cost_matrix_1d, t, n, n, x) >= -0.001), 0, n, 0, n + 1)",
             "locopt_sem_add": "forall(lambda t, x: implies(exists(lambda j: r[j] + 1 >= x, 0, n), "
                               "DAS(r, cost_matrix_1d, t, n, n, x) >= -0.001), 0, n, 0, n + 2)",
-        },
-        assumed={
+            # C04.bc.sum: the returned value is the score difference of the whole local search
             "delta": "result == SC(r, 0, cost_matrix_1d, n, n) - SC(old(r), 0, cost_matrix_1d, n, n)",
         },
         loops={
@@ -455,15 +457,29 @@ def register(reg):
         call_hints={
             "_search_to_change_bucket": [
                 "loc_join_r(CH0, r, cost_matrix_1d, elem, n, max_id_bucket, call_result)",
-                "loc_join_l(CH0, r, cost_matrix_1d, elem, n, max_id_bucket, call_result)"],
+                "loc_join_l(CH0, r, cost_matrix_1d, elem, n, max_id_bucket, call_result)",
+                # the value found by the search is the semantic delta of the move
+                "implies(call_result > r[elem], ext_r_ch(CH0, r, cost_matrix_1d, elem, n, call_result))",
+                "implies(call_result > r[elem], delta_join_right(r, cost_matrix_1d, elem, n, call_result))",
+                "implies(0 <= call_result and call_result < r[elem], ext_l_ch(CH0, r, cost_matrix_1d, elem, n, call_result))",
+                "implies(0 <= call_result and call_result < r[elem], delta_join_left(r, cost_matrix_1d, elem, n, call_result))"],
             "_search_to_add_bucket": [
                 "loc_add_r(AD0, r, cost_matrix_1d, elem, n, max_id_bucket, call_result)",
-                "loc_add_l(AD0, r, cost_matrix_1d, elem, n, max_id_bucket, call_result)"],
+                "loc_add_l(AD0, r, cost_matrix_1d, elem, n, max_id_bucket, call_result)",
+                "implies(call_result > r[elem], ext_r_ad(AD0, r, cost_matrix_1d, elem, n, call_result))",
+                "implies(call_result > r[elem], delta_add_right(r, cost_matrix_1d, elem, n, call_result))",
+                "implies(0 <= call_result and call_result <= r[elem], ext_l_ad(AD0, r, cost_matrix_1d, elem, n, call_result))",
+                "implies(0 <= call_result and call_result <= r[elem], delta_add_left(r, cost_matrix_1d, elem, n, call_result))"],
+            # after the move: the score changed by exactly that delta (pair-sum identity on the vector before / after)
+            "_change_bucket": ["dqs_is_djs(r, R1, cost_matrix_1d, elem, n, n, to)", "pairsum(r, R1, cost_matrix_1d, elem, n)"],
+            "_add_bucket": ["dqs_is_das(r, R1, cost_matrix_1d, elem, n, n, to)", "pairsum(r, R1, cost_matrix_1d, elem, n)"],
         },
         hints={2: ["dense_bound(r, n, max_id_bucket, wit)", "nl_bound(n, elem)",
                    "CH_own_zero(r, cost_matrix_1d, elem, r[elem], n, n)"]},
         exit_hints={1: ["dense_bound(r, n, max_id_bucket, wit)"]},
-        focus={"mx_wit": ["chg_wit", "add_wit"], "mx_range": ["chg_wit", "add_wit"], "nonpos": ["cumr", "cuml"],
+        focus={"inv.delta": ["SC", "DQS", "DJS", "DAS", "SR_CH", "SL_CH", "SR_AD", "SL_AD", "cumr", "cuml"],
+               "lemma_call.pairsum": ["SAMEREL", "MIRP"], "lemma_call.dqs": ["rel"],
+               "mx_wit": ["chg_wit", "add_wit"], "mx_range": ["chg_wit", "add_wit"], "nonpos": ["cumr", "cuml"],
                "own_zero": ["CH", "TIE"], "dense_bound": ["TOT", "CNT"]},
         call_ghost={
             ("_compute_delta_costs", "maxb"): "max_id_bucket",
@@ -473,7 +489,7 @@ def register(reg):
             ("_add_bucket", "mate"): "choose(lambda j: j != elem and r[j] == bucket_elem, 0, n)",
         },
         ghost_after={
-            "_compute_delta_costs": {"CH0": "change", "AD0": "add"},     # snapshots of the two difference arrays
+            "_compute_delta_costs": {"CH0": "change", "AD0": "add", "R1": "r"},     # snapshots: difference arrays, vector
             "_change_bucket": {"wit": "lam(lambda b: chg_wit(wit, g_mate, bucket_elem, alone, b))"},
             "_add_bucket": {"wit": "lam(lambda b: add_wit(wit, g_mate, elem, bucket_elem, to, alone, b))"},
         },
@@ -677,3 +693,59 @@ def register_delta_lemmas(reg):
     left_chain("AL", "ad", "AD",
                "ite(r[e2] < r[t] and x <= r[e2], " + P % "" + " - " + P % " + 1" + ", 0.0)",
                "SL_AD", "r[t] + 1", 0, "x <= r[t]", "DAS", "0 <= x and x <= r[t]", "delta_add_left", "0 <= x and x <= r[t]")
+
+    register_pairsum_lemmas(reg)
+
+
+def register_pairsum_lemmas(reg):
+    """The score is a sum over unordered pairs; when only the relations of element t to the others change (from vector r
+    to vector q), the score changes by the sum over the other elements e2 of cost(t, e2, new relation) - cost(t, e2, old).
+    Needs the mirror consistency of the flattened table: cell(a, t, before) == cell(t, a, after), tied cells equal."""
+    PL = ["C04", "C08", "C09"]
+    # mirror consistency of the flattened cost table for the pair (a, t)   (opaque: used as a trigger)
+    reg.spec("def MIRP(c, n, t, a):\n"
+             "    return c[3*n*a + 3*t] == c[3*n*t + 3*a + 1] and c[3*n*a + 3*t + 1] == c[3*n*t + 3*a] and "
+             "c[3*n*a + 3*t + 2] == c[3*n*t + 3*a + 2]", dict(c=Arr(Real), n=Int, t=Int, a=Int), Bool, opaque=True)
+    Q = dict(q=Arr(Int), r=Arr(Int), c=Arr(Real), t=Int, n=Int)
+    # change of the cost of the pair (t, e2) between r and q
+    reg.spec("def dq(q, r, c, t, n, e2):\n"
+             "    return 0.0 if e2 == t else c[3*n*t + 3*e2 + rel(q[t], q[e2])] - c[3*n*t + 3*e2 + rel(r[t], r[e2])]",
+             dict(Q, e2=Int), Real)
+    # the relations among the elements other than t are the same in q and r   (opaque predicate, trigger)
+    reg.spec("def SAMEREL(q, r, t, a, b):\n"
+             "    return implies(a != t and b != t, rel(q[a], q[b]) == rel(r[a], r[b]))",
+             dict(q=Arr(Int), r=Arr(Int), t=Int, a=Int, b=Int), Bool, opaque=True)
+    SAME = {"same": "forall(lambda a, b: SAMEREL(q, r, t, a, b), 0, n, 0, n)"}
+    reg.lemma("ps_row_other", dict(Q, a=Int, m=Int),
+              "SCrow(q, 0, c, n, a, m) - SCrow(r, 0, c, n, a, m) == ite(a < t and t < m, dq(q, r, c, t, n, a), 0.0)",
+              props=PL, induction="m", base="0",
+              requires=dict(SAME, a="0 <= a and a < n and a != t", t="0 <= t and t < n", m="m <= n",
+                            mir="MIRP(c, n, t, a)"),
+              hints=["SAMEREL(q, r, t, a, m) or True"])
+    reg.spec("def DQT(q, r, c, t, n, m):\n    return 0.0 if m <= t + 1 else DQT(q, r, c, t, n, m - 1) + dq(q, r, c, t, n, m - 1)",
+             dict(Q, m=Int), Real)
+    reg.spec("def DQL(q, r, c, t, n, k):\n    return 0.0 if k <= 0 else DQL(q, r, c, t, n, k - 1) + dq(q, r, c, t, n, k - 1)",
+             dict(Q, k=Int), Real)
+    reg.lemma("ps_row_t", dict(Q, m=Int), "SCrow(q, 0, c, n, t, m) - SCrow(r, 0, c, n, t, m) == DQT(q, r, c, t, n, m)",
+              props=PL, induction="m", base="0", requires={"t": "0 <= t and t < n", "m": "m <= n"})
+    reg.lemma("ps_total", dict(Q, m=Int),
+              "SC(q, 0, c, n, m) - SC(r, 0, c, n, m) == DQL(q, r, c, t, n, ite(m < t, m, t)) + ite(t < m, DQT(q, r, c, t, n, n), 0.0)",
+              props=PL, induction="m", base="0",
+              requires=dict(SAME, t="0 <= t and t < n", m="m <= n", mir="forall(lambda a: MIRP(c, n, t, a), 0, n)"),
+              hints=["implies(m != t, ps_row_other(q, r, c, t, n, m, n))", "ps_row_t(q, r, c, t, n, n)"])
+    reg.spec("def DQS(q, r, c, t, n, m):\n    return 0.0 if m <= 0 else DQS(q, r, c, t, n, m - 1) + dq(q, r, c, t, n, m - 1)",
+             dict(Q, m=Int), Real)
+    reg.lemma("ps_split", dict(Q, m=Int),
+              "DQS(q, r, c, t, n, m) == DQL(q, r, c, t, n, ite(m < t, m, t)) + ite(t < m, DQT(q, r, c, t, n, m), 0.0)",
+              props=PL, induction="m", base="0", requires={"t": "0 <= t"})
+    # pair-sum identity: the score difference is the sum of the pairwise changes of t
+    reg.lemma("pairsum", Q, "SC(q, 0, c, n, n) - SC(r, 0, c, n, n) == DQS(q, r, c, t, n, n)", props=PL,
+              requires=dict(SAME, t="0 <= t and t < n", mir="forall(lambda a: MIRP(c, n, t, a), 0, n)"),
+              hints=["ps_total(q, r, c, t, n, n)", "ps_split(q, r, c, t, n, n)"])
+
+    reg.lemma("dqs_is_djs", dict(q=Arr(Int), r=Arr(Int), c=Arr(Real), t=Int, n=Int, m=Int, x=Int),
+              "DQS(q, r, c, t, n, m) == DJS(r, c, t, n, m, x)", props=PL, induction="m", base="0",
+              requires={"rel": "forall(lambda e2: implies(e2 != t, rel(q[t], q[e2]) == rel(x, r[e2])), 0, m)"})
+    reg.lemma("dqs_is_das", dict(q=Arr(Int), r=Arr(Int), c=Arr(Real), t=Int, n=Int, m=Int, x=Int),
+              "DQS(q, r, c, t, n, m) == DAS(r, c, t, n, m, x)", props=PL, induction="m", base="0",
+              requires={"rel": "forall(lambda e2: implies(e2 != t, rel(q[t], q[e2]) == ite(r[e2] < x, 1, 0)), 0, m)"})
